@@ -60,6 +60,12 @@ CHECKS = {
         "Differential oracle against the quantum-1 run of the same implementation; the forced newline of BREAK/errors, READY and a re-issued prompt are normalised; programs using TRON are excluded from the CONT comparisons.",
         "DESIGN.md §3 C13",
     ),
+    "C14": (
+        "exhaustive enumeration of link-clean programs (all subsets of a line-number universe x all referencing statement forms and decoys) x RENUM argument triples, executed on the real interpreter against a reference renumbering",
+        "Every program of 1..3 lines over the numbers {0,5,10,20,100,65000} with bodies from 28 templates (every referencing form, multi-byte prefixes, decoys) is renumbered with every argument triple of a boundary set (210; 36 for 3-line programs in quick); the listing afterwards must be unchanged when the request is invalid and equal to the reference renumbering otherwise; refusal cases (inside a program, compile errors, bad operands) included.",
+        "Reference renumbering computed on the harness's own templates (reference slots are known positions, not columns).",
+        "DESIGN.md §3 C14",
+    ),
     "C15": (
         "explicit-state search of the complete store graph (all maps of a small line-number universe x all edit/LIST/DELETE actions) on the real Runtime against a BTreeMap reference",
         "All 243 (thorough: also 2187) stores over the universe are reached and from each every action (insert, bare number, LIST/DELETE in every operand form over boundary endpoints, numbers above 65529) is executed; listed lines, rejection, resulting store and Listing::line are compared with the reference map. The graph is explored to closure: exhaustive for the universe.",
@@ -78,6 +84,18 @@ CHECKS = {
         "Reference refmodel/input.rs; values whose printed notation is not fixed are skipped.",
         "DESIGN.md §3 C17",
     ),
+    "C18": (
+        "exhaustive enumeration of (loop body x loop shape) programs run for 70 000 iterations, and of every pool driven past its limit, on the real interpreter",
+        "54 loop bodies covering every loopable statement kind and built-in function x 3 (thorough 5) loop shapes each run 70 000 times (more than any 65 535-entry pool: a leak of one slot per iteration must surface as OUT OF MEMORY); 90 000 array elements set and reset; nine ways past a limit must report OUT OF MEMORY, not panic, not grow without bound, and leave the session and the next program working.",
+        "Only leaks of at least one slot per iteration are certain to be seen; resident-set growth is a coarse threshold.",
+        "DESIGN.md §3 C18",
+    ),
+    "C19": (
+        "exhaustive enumeration of programs with one injected fault (every referencing form and list position x missing targets, unmatched WHILE/WEND placements, single-token damage of template lines) x prefixes x line-number widths, executed on the real interpreter",
+        "Every diagnostic must name the faulty line, carry a character range inside the listed text that covers exactly the missing number / the keyword, agree with the column in the message and with the LIST underline; RUN, RUN n, GOTO, GOSUB, ON..GOTO and IF..THEN n must print no line's marker and report the errors; PRINT \"D\" and direct-mode loops must still work. Exhaustive within the fault / prefix / width sets.",
+        "Ranges are read from Error::column() and Event::List; token-damaged lines that remain legal BASIC are counted, not judged.",
+        "DESIGN.md §3 C19",
+    ),
     "C20": (
         "exhaustive enumeration of programs x single and pairwise layout transformations, transcripts compared up to reported line numbers",
         "Every program of the bounded space is re-laid-out (filler REM / ' / empty lines at every gap, empty statements at every boundary, every split of a multi-statement line, direct statement over different stored programs, direct list vs one-line program) and must run to the same transcript after mapping line numbers. Exhaustive within the bound.",
@@ -89,6 +107,12 @@ CHECKS = {
         "Every string up to length 4 over the 47-symbol lexical alphabet and up to length 6 over numeric, operator and word alphabets (thorough: 5 / 7 / 8 / 6), as a direct line and with a line number, must list to text that re-enters with the same number and the same parsed statements (or is rejected in both cases), is a fixed point when it parses, keeps string and remark text, and survives load_str and Listing::line; lines at the 1024-byte limit included. Exhaustive within the bounds.",
         "SAVE/LOAD is checked at the two library calls that path makes; longer lines only through periodic shapes.",
         "DESIGN.md §3 C05",
+    ),
+    "C06": (
+        "explicit-state breadth-first search over sequences of assignments, DIM/ERASE, DEFtype, SWAP and CLEAR on a universe of scalar and array names (full-state digest), with a read-back of the whole universe after every transition compared with a reference store",
+        "All histories of depth 2 (thorough 3) over 371 statements and depth 3 (thorough 4) over a 159-statement core are executed; after the last step the statement's outcome and the values of all 11 scalar names and of every nameable / stored / corner / just-outside array element must equal the reference store (types via conversion on assignment, defaults, bounds, no aliasing, SWAP atomicity). Exhaustive within the depth bound.",
+        "Reference refmodel/store.rs; values the manual leaves open after a DEFtype (type unchanged, value of another type) are left out of the read-back.",
+        "DESIGN.md §3 C06",
     ),
     "C07": (
         "exhaustive enumeration of all argument tuples of a boundary universe for every string function, operator and MID$ assignment, through the public entry points and through the interpreter, against a Vec<char> reference",
